@@ -190,6 +190,13 @@ Step ==
        [] e.ev = "CrStart" -> gor' = gor \cup {"cr"} /\ crG' = e.g /\ UNCHANGED <<lk, cPre, cPost, late, ws, role, flate, sentW, rcvdW, sentR, rcvdR, armedW, armedR, succeeded, reg, everReg, ctlReg, pingSent, notified, atCall, wcOK, rcvdCode, bad, skip>>
        [] e.ev = "CrExit"  -> IF ~cPost THEN Fail("closeread-goroutine-exited-with-connection-open")
                               ELSE gor' = gor \ {"cr"} /\ UNCHANGED <<lk, cPre, cPost, late, ws, role, flate, sentW, rcvdW, sentR, rcvdR, armedW, armedR, succeeded, reg, everReg, ctlReg, pingSent, notified, crG, atCall, wcOK, rcvdCode, bad, skip>>
+       \* ---------------- pooled objects (C07): handed back only by the goroutine that holds the lock guarding them ----------------
+       \* c.bw is written under writeFrameMu, the flate writer under msgWriter.writeMu, c.br / the flate reader / its window and
+       \* bufio under readMu: whoever puts one into its pool while another goroutine is inside that lock gives the next
+       \* connection an object that is still being written
+       [] e.ev = "PoolPut" /\ e.s \in {"bw", "fw", "br", "fr", "sw", "fbr"} ->
+            LET need == CASE e.s = "bw" -> "wf" [] e.s = "fw" -> "wmu" [] OTHER -> "rd" IN
+            IF lk[need] # e.g THEN Fail("pooled-object-released-without-its-lock:" \o e.s) ELSE Same(state) /\ UNCHANGED <<bad, skip>>
        [] OTHER -> Same(state) /\ UNCHANGED <<bad, skip>>
 Next == Step
 HW == TLCSet(1, IF TLCGet(1) < i THEN i ELSE TLCGet(1))
